@@ -19,6 +19,27 @@ pub fn in_claim(code: Code, v: u64) -> bool {
     }
 }
 
+pub fn through_wrapper(e: En, code: Code, wop: CodeOp, v: u64, ci: usize, rep: &mut Report) {
+    let w = [WWord::U64, WWord::U16][ci % 2];
+    let mut h = make_wrapped_writer(e, w, Wrap::Count);
+    let mut mb: Bits = vec![];
+    push_bits(&mut mb, e, 0b101, 3);
+    push_code(&mut mb, e, code, v);
+    let r0 = guard(|| h.w.write_bits(0b101, 3));
+    let r1 = guard(|| h.w.write_code(wop, v));
+    let r2 = guard(|| h.w.flush());
+    let got = h.w.delivered().unwrap_or_default();
+    let img = image(&mb, e, w.bytes());
+    rep.eval(1);
+    if !r0.is_ok() || r1 != Out::Ok(mb.len() - 3) || !r2.is_ok() || got != img {
+        rep.violation(
+            &format!("{}|{}|{}|through-CountBitWriter|{}", e.name(), w.name(), code.family(), if got != img { "bits" } else { "result" }),
+            || format!("{} of {} through CountBitWriter on a {} stream: returned {}, bytes {} but the definition gives {} ({} bits)", wop.name(), v, w.name(), r1.show(), crate::report::hex(&got), crate::report::hex(&img), mb.len() - 3),
+            || format!("wrapper=count e={} code={} wop={} value={} ci={}", e.name(), codeop_to_string(&CodeOp::Std(code)), codeop_to_string(&wop), v, ci),
+        );
+    }
+}
+
 pub fn run(ctx: &Ctx) -> Report {
     let codes = code_grid(ctx.tier == Tier::Thorough);
     let codes: Vec<Code> = if ctx.tier == Tier::Tiny { vec![Code::Gamma, Code::Delta, Code::Zeta(3), Code::Omega, Code::MinBin(11), Code::VByteBe] } else { codes };
@@ -79,6 +100,9 @@ pub fn run(ctx: &Ctx) -> Report {
                     let case = CodeCase { e, w, wop: wms[ci % wms.len()], value: v, offset: 0, seed: ctx.seed };
                     write_case("C04", &case, rep, true, false);
                 }
+                // the format does not depend on how the writer is dressed: through the counting wrapper
+                // (whose write_bits / write_unary the table-free encoders go through) the bits are the same
+                through_wrapper(e, code, wms[(ci / 17) % wms.len()], v, ci, rep);
             }
         }
         if ctx.tier != Tier::Tiny {
@@ -89,6 +113,11 @@ pub fn run(ctx: &Ctx) -> Report {
 
 pub fn replay(case: &str, rep: &mut Report) {
     let kv = Kv::parse(case);
+    if kv.opt("wrapper").is_some() {
+        let code = parse_codeop(kv.get("code")).code();
+        through_wrapper(parse_en(kv.get("e")), code, parse_codeop(kv.get("wop")), kv.u64("value"), kv.usize("ci"), rep);
+        return;
+    }
     let c = CodeCase::from_kv(&kv);
     write_case("C04", &c, rep, true, false);
 }
